@@ -32,7 +32,10 @@ def tonumpy(poly: PolyLike) -> numpy.ndarray:
         raise numpoly.FeatureNotSupported(
             "only constant polynomials can be converted to array."
         )
-    idx = numpy.argwhere(numpy.all(poly.exponents == 0, -1)).item()
-    if poly.size:
-        return numpy.array(poly.coefficients[idx])
-    return numpy.empty(poly.shape, dtype=poly.dtype)
+    if not poly.size:
+        return numpy.empty(poly.shape, dtype=poly.dtype)
+    indices = numpy.argwhere(numpy.all(poly.exponents == 0, -1))
+    if not indices.size:
+        # constant without a constant term (only retained all-zero terms)
+        return numpy.zeros(poly.shape, dtype=poly.dtype)
+    return numpy.array(poly.coefficients[indices.item()])
